@@ -21,7 +21,11 @@ Batch == JsonDeserialize(IOEnv.TRACE_FILE)
 
 VARIABLES tid, l,
           seen      \* the listing observed in this trace (relative paths), or the tree's if none was observed
-tvars == <<tid, l, seen>>
+tvars == <<vars, tid, l, seen>>
+
+(* the state machine of ArchiveContext is not stepped here: its variables are parked *)
+Parked == /\ inp = "trace" /\ phase = "trace" /\ tmp = "none" /\ placed = {} /\ outside = {} /\ lst = {}
+          /\ tried = <<>> /\ found = NoChoice /\ ctx = NoChoice /\ broker = {} /\ err = "none"
 
 T    == Batch[tid]
 Ev   == T.events[l + 1]
@@ -225,10 +229,11 @@ Advance ==
       THEN tid' = tid + 1 /\ l' = 0 /\ seen' = SeenOf(Batch[tid + 1])
       ELSE tid' = Len(Batch) + 1 /\ l' = 0 /\ UNCHANGED seen
 
-TraceInit == tid = 1 /\ l = 0 /\ seen = SeenOf(Batch[1])
+TraceInit == tid = 1 /\ l = 0 /\ seen = SeenOf(Batch[1]) /\ Parked
 
 TraceNext ==
     /\ tid <= Len(Batch)
+    /\ UNCHANGED vars
     /\ IF ~More
          THEN TLCSet(2, TLCGet(2) + l) /\ Advance
          ELSE IF Accepts
